@@ -129,6 +129,11 @@ def run(case: dict, ctx) -> dict:
         )
         units = [bs]
     model = Model(meta["size"], [layer])
+    if sf.end <= (8 << 20) and case["i"] % 4 == 0:
+        from vf.diskcheck import triangulate
+
+        triangulate(rng, RefVHD(sf.to_bytes()), model, "vhd")
+        res["cnt"]["writer_triangulations"] = 1
     fh = as_handle(sf.to_bytes() if sf.end <= (8 << 20) else sf)
     o = call(VHD, fh)
     if not o.ok:
